@@ -850,8 +850,8 @@ func (ls *LanceroSource) distributeData(buffersMsg BuffersChanType) *dataBlock {
 	nrows := ls.devices[0].nrows
 	for frame := 0; frame < framesUsed; frame++ { // frame within this block, need to add ls.nextFrameNum for consistent timing across blocks
 		for row := 0; row < nrows; row++ { // search the first column for frame bit level triggers
-			channelIndex := row*2 + 1
-			v := datacopies[channelIndex][frame]
+			channelIndex := row*2 + 1 // feedback channel of this row in the first column
+			v := datacopies[ls.chan2readoutOrder[channelIndex]][frame] // datacopies is in readout order
 			externalTriggerState := (v & 0x02) == 0x02 // external trigger bit is 2nd least significant bit in feedback (odd channelIndex)
 			if externalTriggerState && !ls.externalTriggerLastState {
 				if ls.mixedRowCounts {
